@@ -30,7 +30,9 @@ import (
 	"context"
 	"fmt"
 	"os"
+	"runtime"
 	"sort"
+	"strconv"
 	"strings"
 	"sync"
 	"testing"
@@ -70,14 +72,49 @@ type vC07Fo struct {
 	Wit []string `json:"wit"`
 }
 
+// a report that is inside metadataAPI.ReportLeader: it has passed the (leader,
+// epoch) check and is parked at the gate before the witness registration
+type vC07Pend struct {
+	W       string `json:"w"`
+	L       string `json:"l"`
+	E       int64  `json:"e"`
+	parked  chan struct{}
+	release chan struct{}
+	done    chan *status.Status
+}
+
+var vC07Slots sync.Map // goroutine id -> *vC07Pend
+
+func vGoID() uint64 {
+	var buf [64]byte
+	n := runtime.Stack(buf[:], false)
+	s := strings.TrimPrefix(string(buf[:n]), "goroutine ")
+	id, _ := strconv.ParseUint(s[:strings.IndexByte(s, ' ')], 10, 64)
+	return id
+}
+
+// vC07Gate parks the calling goroutine at the gate in ReportLeader if the driver
+// registered a slot for it (ordinary, atomic reports pass straight through)
+func vC07Gate(name string) {
+	if name != "metadata.report_leader.checked" {
+		return
+	}
+	if v, ok := vC07Slots.Load(vGoID()); ok {
+		slot := v.(*vC07Pend)
+		close(slot.parked)
+		<-slot.release
+	}
+}
+
 type vC07State struct {
-	Exists bool     `json:"exists"`
-	Isr    []string `json:"isr"`
-	Leader string   `json:"leader"`
-	LEpoch int64    `json:"lepoch"`
-	PEpoch int64    `json:"pepoch"`
-	E0     int64    `json:"e0"`
-	Fo     vC07Fo   `json:"fo"`
+	Exists bool       `json:"exists"`
+	Isr    []string   `json:"isr"`
+	Leader string     `json:"leader"`
+	LEpoch int64      `json:"lepoch"`
+	PEpoch int64      `json:"pepoch"`
+	E0     int64      `json:"e0"`
+	Fo     vC07Fo     `json:"fo"`
+	Pend   []vC07Pend `json:"pend"`
 }
 
 type vC07Obs struct {
@@ -101,6 +138,7 @@ type vC07Run struct {
 	p        *partition
 	e0       int64
 	armStart time.Time // start of the last report since the last window end (zero: none)
+	pend     []*vC07Pend
 }
 
 func (r *vC07Run) create(isr []string) error {
@@ -158,6 +196,10 @@ func (r *vC07Run) state() vC07State {
 		PEpoch: int64(r.p.GetEpoch()),
 		E0:     r.e0,
 		Fo:     vC07Fo{Wit: []string{}},
+		Pend:   []vC07Pend{},
+	}
+	for _, x := range r.pend {
+		st.Pend = append(st.Pend, vC07Pend{W: x.W, L: x.L, E: x.E})
 	}
 	if f := r.failover(); f != nil {
 		f.mu.Lock()
@@ -263,6 +305,50 @@ func (r *vC07Run) step(step map[string]interface{}) (ev vC07Event, ok bool) {
 				// an accepted report (re)arms the entry's timer, at the earliest at `start`
 				r.armStart = start
 			}
+		case "ReportCheck":
+			w, ps := vStr(step, "w"), vStr(step, "ps")
+			l, e := r.pair(ps)
+			args["w"], args["ps"], args["l"], args["e"] = w, ps, l, int64(e)
+			slot := &vC07Pend{W: w, L: l, E: int64(e), parked: make(chan struct{}),
+				release: make(chan struct{}), done: make(chan *status.Status, 1)}
+			go func() {
+				gid := vGoID()
+				vC07Slots.Store(gid, slot)
+				defer vC07Slots.Delete(gid)
+				c2, cancel2 := context.WithTimeout(context.Background(), vC07Deadline)
+				defer cancel2()
+				slot.done <- r.srv.metadata.ReportLeader(c2, &proto.ReportLeaderOp{
+					Stream: r.stream, Partition: 0, Replica: w, Leader: l, LeaderEpoch: e})
+			}()
+			select {
+			case <-slot.parked:
+				r.pend = append(r.pend, slot)
+			case st := <-slot.done:
+				obs.Err = vC07ErrClass(st)
+				if st == nil {
+					obs.Err = "other:returned without reaching the gate"
+				}
+			case <-time.After(vC07Deadline):
+				panic("report neither parked nor returned")
+			}
+		case "ReportApply":
+			i := int(vInt(step, "i"))
+			args["i"] = i
+			args["pref"] = vStrDef(step, "pref", "none")
+			if i < 1 || i > len(r.pend) || r.srv.metadata.GetPartition(r.stream, 0) == nil {
+				obs.A, a = "Skip", "Skip"
+				return
+			}
+			slot := r.pend[i-1]
+			r.prefer(vStrDef(step, "pref", "none"))
+			start := time.Now()
+			close(slot.release)
+			st := <-slot.done
+			r.pend = append(append([]*vC07Pend{}, r.pend[:i-1]...), r.pend[i:]...)
+			obs.Err = vC07ErrClass(st)
+			if obs.Err == "" {
+				r.armStart = start
+			}
 		case "Shrink", "Expand":
 			rep, ps := vStr(step, "r"), vStr(step, "ps")
 			l, e := r.pair(ps)
@@ -296,6 +382,11 @@ func (r *vC07Run) step(step map[string]interface{}) (ev vC07Event, ok bool) {
 			}
 			r.armStart = time.Time{}
 		case "Remove":
+			if len(r.pend) > 0 {
+				// outside the domain: no report is inside ReportLeader when the stream goes
+				obs.A, a = "Skip", "Skip"
+				return
+			}
 			st := r.srv.metadata.DeleteStream(ctx, &proto.DeleteStreamOp{Stream: r.stream})
 			obs.Err = vC07ErrClass(st)
 		default:
@@ -341,6 +432,11 @@ func (r *vC07Run) expire() {
 }
 
 func (r *vC07Run) cleanup() {
+	for _, slot := range r.pend {
+		close(slot.release)
+		<-slot.done
+	}
+	r.pend = nil
 	if r.p == nil {
 		return
 	}
@@ -401,6 +497,8 @@ func TestVerifFailover(t *testing.T) {
 	if workers < 1 {
 		workers = 1
 	}
+	VerifGateHook = vC07Gate
+	defer func() { VerifGateHook = nil }()
 	servers := make([]*Server, workers)
 	for i := range servers {
 		cfg := vOneNodeConfig(t, fmt.Sprintf("c07n%d", i))
